@@ -76,7 +76,7 @@ impl ShortGroupSignatureScheme for PsScheme {
         );
 
         for (i, m) in messages {
-            if *i > public_key.y.len() {
+            if *i >= public_key.y_blinds.len() {
                 return Err(crate::error::Error::General("invalid blind signing"));
             }
             secrets.push(*m);
